@@ -536,6 +536,38 @@ class Exec:
             return got
         if op == "dump": return self.dump()
         if op == "refs": return self.refs_line()
+        if op == "gcrefs":
+            # what tp_traverse reports, observed through gc.get_referents: every tracked key / value object with the
+            # number of times `visit` was called on it (the model prints gcTraverse in the same form).  Anything else
+            # the object reports must be something a subclass instance owns by itself: its type (heap types only)
+            # and its instance dict, once each — never the static C type, never anything twice
+            refs = gc.get_referents(t)
+            counts = {}; other = []
+            for o in refs:
+                if o is None: continue
+                ser = self.kser(o)
+                if ser >= 0: key = ("k", ser)
+                elif isinstance(o, Val): key = ("v", o.serial)
+                else: other.append(o); continue
+                counts[key] = counts.get(key, 0) + 1
+            ty = type(t); heap = ty is not self.ext.BPlusTree
+            n_ty = sum(1 for o in other if o is ty)
+            rest = [o for o in other if o is not ty]
+            idict = getattr(t, "__dict__", None)
+            n_dict = sum(1 for o in rest if o is idict)
+            rest = [o for o in rest if o is not idict]
+            bad = []
+            if n_ty > (1 if heap else 0): bad.append("the type object is reported %d time(s), owned %d" % (n_ty, 1 if heap else 0))
+            if n_dict > 1: bad.append("the instance dict is reported %d times" % n_dict)
+            if rest: bad.append("%d object(s) reported that the tree does not own: %s" % (len(rest), ", ".join(type(o).__name__ for o in rest[:4])))
+            want = self.slot_counts()
+            if counts != want:
+                diff = sorted(set(counts) ^ set(want)) + sorted(k for k in set(counts) & set(want) if counts[k] != want[k])
+                bad.append("reported references differ from the slots the tree holds at %s" % diff[:6])
+            if bad: self.fail("C13", "tp_traverse: " + "; ".join(bad))
+            refs = other = rest = None
+            items = sorted(counts.items(), key=lambda kv: (0 if kv[0][0] == "k" else 1, kv[0][1]))
+            return " ".join("%s%d:%d" % (k[0], k[1], n) for k, n in items)
         # ---- wrapper methods (only meaningful in wrapper mode; in the other modes the same compositions are
         #      performed here through the mapping protocol, which is what the wrapper does)
         w = self.mode == "wrapper"
@@ -736,6 +768,7 @@ def gen_case(r, n, kind):
         if mut and (n <= 100 or r.chance(20)):
             yield "C dump"
             if r.chance(30): yield "C refs"
+            if r.chance(20): yield "C gcrefs"
         if mut and iters and r.chance(35):
             yield "C iter next " + r.pick(iters)          # a stale iterator must fail fast right after the mutation
         if mut and r.chance(20):
@@ -826,6 +859,7 @@ def main():
                     ex.run_line("C dump")
                     ex.run_line("C " + ("items", "keys")[ser % 2])      # printed, so that the model's iteration is compared too
                 ex.run_line("C refs")
+                ex.run_line("C gcrefs")
                 if done >= cases: break
             if done >= cases: break
         ex.close(); return
